@@ -357,6 +357,45 @@ def api_c_split3(i1, i2, i3):
     return {"ddl": text, "got": got, "expected_entities": want, "reproduced": not ok}
 
 
+def c_reach3(i1: int, i2: int, i3: int) -> bool:
+    """
+    C16.reach: as c_split3 - every statement of a three-line script is handed to the parser
+    exactly as when it stands alone, in particular after a skipped statement that has no
+    terminating ';'.  (Replayed through the public API with silent=False: the script raises
+    DDLParserError exactly when one of its lines alone does.)
+
+    pre: 0 <= i1 < NL and 0 <= i2 < NL and 0 <= i3 < NL
+    pre: K1 < 0 or i1 == K1
+    post: _
+    """
+    got = run_lines([LINES[i1], LINES[i2], LINES[i3], ""])
+    want = ALONE_THEN_BLANK[i1] + ALONE_THEN_BLANK[i2] + ALONE_THEN_BLANK[i3]
+    return got == want
+
+
+def api_c_reach3(i1, i2, i3):
+    from simple_ddl_parser import DDLParser
+    from simple_ddl_parser.ddl_parser import DDLParserError
+    pre = "CREATE TABLE t (a int, b int);\n"
+
+    def raises(text):
+        try:
+            DDLParser(text, silent=False).run()
+        except DDLParserError:
+            return True
+        except Exception as e:  # e.g. ValueError for an ALTER of a missing table: not the silent switch
+            return f"{type(e).__name__}"
+        return False
+
+    alone = [raises(pre + LINES[i] + "\n\n") for i in (i1, i2, i3)]
+    text = pre + "\n".join(LINES[i] for i in (i1, i2, i3)) + "\n"
+    got = raises(text)
+    want = any(a is True for a in alone)
+    if any(isinstance(a, str) for a in alone) or isinstance(got, str):
+        return {"ddl": text, "note": "another exception type is involved: not decided here", "alone": alone, "script": got, "reproduced": False}
+    return {"ddl": text, "silent": False, "script_raises": got, "lines_alone_raise": alone, "reproduced": got != want}
+
+
 def api_c_lines(g1, g2, g3, indent, blank, crlf):
     lines = _layout(_breaks(g1, g2, g3), [1] * NGAP, crlf)
     lines = [lines[0]] + [(" " * (2 * indent)) + ln for ln in lines[1:]]
